@@ -433,6 +433,6 @@ Theorem c05_facts :
   sites_of "cutting_experiments:_get_mapping_ids_by_partition" = 1 /\
   sites_of "cutting_experiments:_get_bases" = 1.
 Proof.
-  split; [reflexivity|]. split; [first [left; reflexivity|right; reflexivity]|]. repeat split; reflexivity.
+  split; [reflexivity|]. split; [reflexivity|]. split; [first [left; reflexivity|right; reflexivity]|]. repeat split; reflexivity.
 Qed.
 Print Assumptions c05_facts.
